@@ -27,7 +27,7 @@ from harness.common import zlit, zlist, zpairs
 GEN_MODULES = ['load']
 MODEL_TARGETS = ['model/M_Load.vo']
 PROOF_TARGETS = ['proofs/P_Load.vo', 'proofs/P_LoadDs.vo', 'proofs/P_LoadFiles.vo', 'proofs/P_LoadRen.vo',
-                 'proofs/P_LoadE2E.vo', 'proofs/P_LoadFmt.vo', 'proofs/P_LoadPq.vo']
+                 'proofs/P_LoadE2E.vo', 'proofs/P_LoadFmt.vo', 'proofs/P_LoadPq.vo', 'proofs/P_LoadAudit.vo']
 LEVEL = 'proof'
 RULE = ('tables with 0..5000+ rows (1, 4095..4097, 5000, 8193 included: crossing the 4096-row re-open block), '
         '1..4 files (same schema, permuted columns, extra / lacking fields, differing dtypes, missing file), '
@@ -106,7 +106,7 @@ def to_array(fs, all_f64=False):
 _counter = [0]
 
 
-def write_files(specs, fmt):
+def write_files(specs, fmt, header=None):
     """write the file specs in one format; a None spec is a path that does not exist"""
     paths = []
     for fs in specs:
@@ -125,10 +125,23 @@ def write_files(specs, fmt):
             pq.write_table(pa.table({n: arr[n] for n in arr.dtype.names}) if arr.dtype.names else pa.table({}), p)
         elif fmt == 'csv':
             with open(p, 'w') as f:
-                f.write('# ' + ' '.join(arr.dtype.names) + '\n')
+                f.write(csv_header(arr.dtype.names, header) + '\n')
                 for r in rows_of(fs):
                     f.write(' '.join(repr(float(v)) for v in r) + '\n')
     return paths
+
+
+def csv_header(names, header):
+    if header is None:
+        return '# ' + ' '.join(names)
+    hc, hs, style = header
+    if style == 'tight':
+        return hc + ' '.join(names)
+    if style == 'wide':
+        return '  ' + hc + '   ' + '    '.join(names) + '   '
+    if style == 'comma':
+        return hc + ' ' + ' , '.join(names)
+    return hc + hs.join(names)
 
 
 def cleanup(paths):
@@ -202,11 +215,16 @@ class LoadCounter:
         np.load = self.orig
 
 
-def impl_loader(paths, keep, conv, exc, mode=None, count=False):
+def impl_loader(paths, keep, conv, exc, mode=None, count=False, as_str=False, ldr_kw=None):
     from skyllh.core.storage import create_FileLoader, DataFieldRecordArray
     keep_s = None if keep is None else [NAMES[k] for k in keep]
     conv_d = {DTYPES[a]: DTYPES[b] for a, b in conv}
     exc_s = [NAMES[k] for k in exc]
+    if as_str:                      # the docstrings allow a single name as str
+        if keep_s is not None and len(keep_s) == 1:
+            keep_s = keep_s[0]
+        if len(exc_s) == 1:
+            exc_s = exc_s[0]
     try:
         with warnings.catch_warnings():
             warnings.simplefilter('ignore')
@@ -214,7 +232,7 @@ def impl_loader(paths, keep, conv, exc, mode=None, count=False):
                 kw = dict(keep_fields=keep_s, dtype_conversions=conv_d, dtype_conversion_except_fields=exc_s)
                 if mode is not None:
                     kw['efficiency_mode'] = mode
-                r = create_FileLoader(paths).load_data(**kw)
+                r = create_FileLoader(paths, **(ldr_kw or {})).load_data(**kw)
         if not isinstance(r, DataFieldRecordArray):
             return ['Raw', r]
         out = ['Ok', canon_table(r)]
@@ -274,6 +292,22 @@ def run_l1(ctx, case, exprs, checks):
         res['bad'] = impl_loader(p, keep, conv, exc, 'fast')
         exprs.append(f'npy_load MBad {files_t} {o_t}')
         checks.append(('l1.npy.badmode', case, res['bad'], 'opens'))
+    # a single name given as str is the one-element list; the mode strings are exact
+    if (keep is not None and len(keep) == 1) or len(exc) == 1:
+        ctx.count('l1:str-argument')
+        for mode in ('time', 'memory'):
+            r = impl_loader(p, keep, conv, exc, mode, count=True, as_str=True)
+            if r != res[mode]:
+                ctx.violation('NPYFileLoader.load_data', 'str-argument-differs-from-list',
+                              'keep_fields / dtype_conversion_except_fields given as str load differently from the one-element list',
+                              case={'files': specs, 'keep': keep, 'conv': conv, 'exc': exc, 'level': 1, 'as_str': True},
+                              impl={'list': res[mode], 'str': r})
+    if case.get('badmode'):
+        for bad, want in (('Time', 'ValueError'), ('MEMORY', 'ValueError'), ('', 'ValueError'), ('time ', 'ValueError'), (1, 'TypeError')):
+            r = impl_loader(p, keep, conv, exc, bad)
+            if r != ['Err', want]:
+                ctx.violation('NPYFileLoader.load_data', 'invalid-mode-accepted', f'efficiency_mode={bad!r} is not rejected with {want}',
+                              case={'files': specs, 'keep': keep, 'conv': conv, 'exc': exc, 'level': 1, 'mode': repr(bad)}, impl=r)
     cleanup(p)
     for mode, ctor in (('time', 'MTime'), ('memory', 'MMemory'), ('none', 'MNone')):
         exprs.append(f'npy_load {ctor} {files_t} {o_t}')
@@ -281,6 +315,18 @@ def run_l1(ctx, case, exprs, checks):
     # csv
     p = write_files(specs, 'csv')
     res['csv'] = impl_loader(p, keep, conv, exc)
+    # the same csv tables with other header conventions: comment string, separator, spacing
+    if all(f is not None for f in specs) and specs:
+        for hc, hs, style in (('#', None, 'tight'), ('%', None, 'wide'), ('#', ',', 'comma'), ('//', ';', 'semi')):
+            p2 = write_files(specs, 'csv', header=(hc, hs, style))
+            r2 = impl_loader(p2, keep, conv, exc, ldr_kw=dict(header_comment=hc, header_separator=hs))
+            cleanup(p2)
+            ctx.count('csv-header:' + style)
+            if r2 != res['csv']:
+                ctx.violation('TextFileLoader.load_data', 'header-style-changes-result',
+                              f'header written as {style!r} (comment {hc!r}, separator {hs!r}) loads differently',
+                              case={'files': specs, 'keep': keep, 'conv': conv, 'exc': exc, 'level': 1, 'header': [hc, hs, style]},
+                              impl={'default': res['csv'], 'styled': r2})
     cleanup(p)
     exprs.append(f'txt_load {files_t} {o_t}')
     checks.append(('l1.csv', case, res['csv'], 'opens-ignored'))
@@ -481,6 +527,16 @@ def make_prep(ops):
     return fs
 
 
+def exc_arg(case):
+    """dtc_except_fields: None, a list of names, or (flag `exc_str`) a single name as str"""
+    if case['exc'] is None:
+        return None
+    l = [NAMES[k] for k in case['exc']]
+    if case.get('exc_str') and len(l) == 1:
+        return l[0]
+    return l
+
+
 def impl_dataset(case, fmt, mode, prepare):
     from skyllh.core.config import Config
     from skyllh.core.dataset import Dataset
@@ -501,7 +557,7 @@ def impl_dataset(case, fmt, mode, prepare):
             ds.add_data_preparation(f)
         kw = dict(keep_fields=[NAMES[k] for k in case['keep']],
                   dtc_dict={DTYPES[a]: DTYPES[b] for a, b in case['conv']},
-                  dtc_except_fields=None if case['exc'] is None else [NAMES[k] for k in case['exc']],
+                  dtc_except_fields=exc_arg(case),
                   efficiency_mode=mode)
         with warnings.catch_warnings():
             warnings.simplefilter('ignore')
@@ -815,7 +871,7 @@ def build_dataset(case, fmt, cfg=None):
 def ds_kwargs(case, mode):
     return dict(keep_fields=[NAMES[k] for k in case['keep']],
                 dtc_dict={DTYPES[a]: DTYPES[b] for a, b in case['conv']},
-                dtc_except_fields=None if case['exc'] is None else [NAMES[k] for k in case['exc']],
+                dtc_except_fields=exc_arg(case),
                 efficiency_mode=mode)
 
 
@@ -966,16 +1022,170 @@ def run_history(ctx, cases, rng):
         history_l2(ctx, c, l2[(i + 1) % len(l2)], rng)
 
 
+# ---------------------------------------------------------------- I3Dataset (skyllh/i3/dataset.py)
+# Real I3Dataset with a good-run-list against a plain Python oracle: GRL loaded,
+# renamed and sorted by start; livetime from the GRL; sin_dec / sin_true_dec
+# appended; experimental events kept iff their run is in the GRL and their time
+# lies in a run window [start, stop] (both edges inclusive), in file order.
+def i3_cases(rng, n_random):
+    ev = [(1, 10.0, 0.125), (1, 11.0, -0.25), (2, 20.0, 0.5), (2, 25.0, 1.0), (3, 30.0, 0.0), (9, 12.0, 0.75),
+          (1, 19.5, 0.3), (2, 10.0, -1.2), (2, 30.0, 0.9), (1, 12.0, 1.5)]
+    grl = [(2, 20.0, 30.0, 9.5, 3), (1, 10.0, 12.0, 1.75, 4)]           # unsorted on purpose; edges hit by events
+    cases = []
+    for fields in (('run', 'start', 'stop', 'livetime', 'events'), ('run', 'start', 'stop', 'events'),
+                   ('run', 'livetime'), ('start', 'stop', 'livetime')):
+        for ren in (False, True):
+            for lt in (None, 77):
+                cases.append({'events': ev, 'grl': grl, 'grl_fields': list(fields), 'grl_ren': ren, 'livetime': lt,
+                              'mode': 'memory' if ren else 'time', 'with_mc': lt is None})
+    for _ in range(n_random):
+        runs = rng.sample(range(1, 8), rng.randint(1, 4))
+        g = []
+        t = 0.0
+        for r_ in runs:
+            t += rng.randint(0, 3)
+            w = rng.randint(1, 6)
+            g.append((r_, t, t + w, w - rng.choice([0, 0.25, 0.5]), rng.randint(0, 9)))
+            t += w
+        rng.shuffle(g)
+        e = [(rng.choice(runs + [8, 9]), rng.choice([x for row in g for x in (row[1], row[2])] + [rng.randint(0, 40) / 2.0]),
+              rng.randint(-12, 12) / 8.0) for _ in range(rng.randint(0, 25))]
+        cases.append({'events': e, 'grl': g, 'grl_fields': ['run', 'start', 'stop', 'livetime', 'events'],
+                      'grl_ren': rng.random() < 0.5, 'livetime': None if rng.random() < 0.7 else 5,
+                      'mode': rng.choice(['time', 'memory']), 'with_mc': rng.random() < 0.5})
+    return cases
+
+
+def run_i3(ctx, rng):
+    from skyllh.core.config import Config
+    from skyllh.i3.dataset import I3Dataset
+    for c in i3_cases(rng, ctx.budget(10, 80)):
+        ctx.case({'i3': c})
+        ctx.count('i3:cases')
+        ev, grl = c['events'], c['grl']
+        cs = {'level': 3, 'i3': c}
+        d = tmpdir()
+        _counter[0] += 1
+        pe, pg, pm = (os.path.join(d, f'i3{k}{_counter[0]}.npy') for k in 'egm')
+        exp = np.zeros(len(ev), dtype=[('run', np.int64), ('time', np.float64), ('dec', np.float64), ('extra', np.float64)])
+        for j, (r_, t, dec) in enumerate(ev):
+            exp[j] = (r_, t, dec, j)
+        np.save(pe, exp)
+        gname = {f: ('grl_' + f if c['grl_ren'] else f) for f in c['grl_fields']}
+        col = {'run': 0, 'start': 1, 'stop': 2, 'livetime': 3, 'events': 4}
+        garr = np.zeros(len(grl), dtype=[(gname[f], np.int64 if f in ('run', 'events') else np.float64) for f in c['grl_fields']])
+        for j, row in enumerate(grl):
+            garr[j] = tuple(row[col[f]] for f in c['grl_fields'])
+        np.save(pg, garr)
+        mc = np.zeros(3, dtype=[('dec', np.float64), ('true_dec', np.float64), ('time', np.float64), ('run', np.int64)])
+        mc['dec'] = [0.25, -0.5, 1.0]
+        mc['true_dec'] = [0.125, -0.75, 0.5]
+        np.save(pm, mc)
+        try:
+            cfg = Config()
+            cfg['repository']['download_from_origin'] = False
+            cfg['datafields'].clear()
+            cfg['datafields'].update({'run': 4, 'time': 4, 'dec': 4, 'sin_dec': 4, 'sin_true_dec': 8, 'true_dec': 8})
+            ds = I3Dataset(cfg=cfg, name='i3verif', exp_pathfilenames=[pe], mc_pathfilenames=[pm] if c['with_mc'] else None,
+                           grl_pathfilenames=[pg], livetime=c['livetime'], default_sub_path_fmt='', version=1, base_path=d)
+            if c['grl_ren']:
+                ds.grl_field_name_renaming_dict = {v: k for k, v in gname.items()}
+            try:
+                with warnings.catch_warnings():
+                    warnings.simplefilter('ignore')
+                    data = ds.load_and_prepare_data(efficiency_mode=c['mode'])
+                got = ['Ok', {n: data.exp[n].tolist() for n in data.exp.field_name_list},
+                       None if data.mc is None else {n: data.mc[n].tolist() for n in data.mc.field_name_list},
+                       float(data.livetime), {n: data.grl[n].tolist() for n in data.grl.field_name_list}]
+            except Exception as ex:
+                got = ['Err', exc_kind(ex)]
+            # ---- oracle
+            gf = c['grl_fields']
+            if 'start' not in gf:
+                want_err = 'KeyError'         # load_grl sorts by `start`
+            else:
+                want_err = None
+            if want_err:
+                if got != ['Err', want_err]:
+                    ctx.violation('I3Dataset.load_and_prepare_data', 'grl-without-start-not-reported', 'GRL without a start field',
+                                  case=cs, impl=got)
+                continue
+            gs = sorted(grl, key=lambda r: r[1])
+            keep = []
+            for (r_, t, dec) in ev:
+                ok = True
+                if 'run' in gf:
+                    ok = ok and r_ in {g[0] for g in grl}
+                if 'start' in gf and 'stop' in gf:
+                    ok = ok and any(g[1] <= t <= g[2] for g in grl)
+                if ok:
+                    keep.append((r_, t, dec))
+            if c['livetime'] is not None:
+                lt = float(c['livetime'])
+            elif 'livetime' in gf:
+                lt = float(sum(g[3] for g in grl))
+            else:
+                lt = float(sum(g[2] - g[1] for g in grl))
+            bad = None
+            if got[0] != 'Ok':
+                bad = 'raises-' + got[1]
+            else:
+                e = got[1]
+                if sorted(e) != ['dec', 'run', 'sin_dec', 'time']:
+                    bad = 'wrong-exp-fields'
+                elif (e['run'] != [k[0] for k in keep] or e['time'] != [k[1] for k in keep] or e['dec'] != [k[2] for k in keep]):
+                    bad = 'wrong-events-kept'
+                elif not np.allclose(e['sin_dec'], np.sin([k[2] for k in keep]), rtol=1e-12, atol=1e-15):
+                    bad = 'wrong-sin_dec'
+                elif abs(got[3] - lt) > 1e-9:
+                    bad = 'wrong-livetime'
+                elif sorted(got[4]) != sorted(gf) or any(got[4][f] != [g[col[f]] for g in gs] for f in gf):
+                    bad = 'grl-not-renamed-or-sorted'
+                elif c['with_mc'] and (got[2] is None or sorted(got[2]) != ['dec', 'run', 'sin_dec', 'sin_true_dec', 'time', 'true_dec']
+                                       or not np.allclose(got[2]['sin_true_dec'], np.sin(mc['true_dec']), rtol=1e-12)
+                                       or not np.allclose(got[2]['sin_dec'], np.sin(mc['dec']), rtol=1e-12)
+                                       or got[2]['true_dec'] != mc['true_dec'].tolist()):
+                    bad = 'wrong-mc-data'
+            if bad:
+                ctx.violation('I3Dataset.load_and_prepare_data', bad,
+                              'I3Dataset result differs from: GRL renamed + sorted by start, livetime from the GRL, sin_dec appended, '
+                              'events kept iff run in GRL and start <= time <= stop, in file order', case=cs, impl=got,
+                              model={'kept': keep, 'livetime': lt},
+                              predicate='every (GRL-selected) row once in file order, required fields present')
+        finally:
+            cleanup([pe, pg, pm])
+
+
 # ---------------------------------------------------------------- generators
-def gen_rows(rng, k, n):
-    return [[rng.randint(-1000, 1000) if rng.random() < 0.9 else rng.choice([0, 2 ** 20, -2 ** 20, 2 ** 23])
-             for _ in range(k)] for _ in range(n)]
+BIG_VALUES = [2 ** 24 + 1, -(2 ** 24 + 3), 2 ** 30 + 1, 123456789, 2 ** 25 + 2 ** 1 + 1, -(2 ** 29 + 7)]
 
 
-def gen_file(rng, sch, n, synth=False):
+def gen_rows(rng, k, n, big=False):
+    """small integers; with `big` also integers that float32 cannot represent (a float32 detour in
+    one loader or mode changes them)"""
+    def cell():
+        r = rng.random()
+        if big and r < 0.35:
+            return rng.choice(BIG_VALUES)
+        return rng.randint(-1000, 1000) if r < 0.9 else rng.choice([0, 2 ** 20, -2 ** 20, 2 ** 23])
+    return [[cell() for _ in range(k)] for _ in range(n)]
+
+
+def normalise_spec(fs):
+    """what is on disk: cells of a float32 column are float32 values"""
+    if fs is None or 'rows' not in fs:
+        return fs
+    for j, (n, d) in enumerate(fs['sch']):
+        if d == 2:
+            for r in fs['rows']:
+                r[j] = int(np.float32(r[j]))
+    return fs
+
+
+def gen_file(rng, sch, n, synth=False, big=False):
     if synth or n > 80:
         return {'sch': sch, 'coef': [[rng.randint(-500, 500), rng.randint(-3, 3)] for _ in sch], 'n': n}
-    return {'sch': sch, 'rows': gen_rows(rng, len(sch), n)}
+    return normalise_spec({'sch': sch, 'rows': gen_rows(rng, len(sch), n, big)})
 
 
 def gen_schema(rng, all_f64=False, pool=None, kmin=1):
@@ -995,7 +1205,7 @@ def gen_conv(rng):
     return [[k, rng.randint(0, 3)] for k in ks]
 
 
-def gen_files(rng, ctx, sch, nfiles, sizes, allow_bad=True):
+def gen_files(rng, ctx, sch, nfiles, sizes, allow_bad=True, big=False):
     files = []
     for i in range(nfiles):
         n = sizes[i] if i < len(sizes) else rng.choice([0, 1, 2, 3, 7, 20])
@@ -1016,7 +1226,7 @@ def gen_files(rng, ctx, sch, nfiles, sizes, allow_bad=True):
                 j = rng.randrange(len(s))
                 s[j][1] = rng.randint(0, 3)
                 ctx.count('file:other-dtype')
-        files.append(gen_file(rng, s, n))
+        files.append(gen_file(rng, s, n, big=big))
     if allow_bad and rng.random() < 0.08:
         files[rng.randrange(len(files))] = None
         ctx.count('file:missing')
@@ -1027,17 +1237,25 @@ SIZES_SMALL = [0, 1, 2, 3, 5, 8, 17, 40, 60]
 SIZES_BIG = [4095, 4096, 4097, 5000, 8193]
 
 
-def gen_l1(rng, ctx, big=None):
+def gen_l1(rng, ctx, big=None, wide=False, many=False):
     f64 = rng.random() < 0.35
+    conv = gen_conv(rng)
+    bigvals = all(b != 2 for a, b in conv) and rng.random() < 0.6
+    if bigvals:
+        ctx.count('cells:not-float32-representable')
     sch = gen_schema(rng, all_f64=f64)
-    nfiles = rng.choice([1, 1, 2, 2, 3, 4])
+    if wide:                       # more than 5 fields
+        extra = [n for n in range(len(NAMES)) if n not in [x[0] for x in sch]]
+        sch += [[n, 3 if f64 else rng.randint(0, 3)] for n in rng.sample(extra, rng.randint(6, 8) - len(sch))]
+        ctx.count('fields:>5')
+    nfiles = rng.choice([5, 6]) if many else rng.choice([1, 1, 2, 2, 3, 4])
     if big is not None:
         sizes = [big] + [rng.choice([0, 1, 5]) for _ in range(nfiles - 1)]
         if rng.random() < 0.5:
             sizes.reverse()
     else:
         sizes = [rng.choice(SIZES_SMALL) for _ in range(nfiles)]
-    files = gen_files(rng, ctx, sch, nfiles, sizes, allow_bad=(big is None))
+    files = gen_files(rng, ctx, sch, nfiles, sizes, allow_bad=(big is None), big=bigvals)
     fn = [n for n, d in sch]
     r = rng.random()
     if r < 0.25:
@@ -1055,11 +1273,10 @@ def gen_l1(rng, ctx, big=None):
             keep += rng.sample([n for n in range(len(NAMES)) if n not in fn], 1)
         rng.shuffle(keep)
         ctx.count('keep:subset')
-    conv = gen_conv(rng)
     exc = rng.sample(fn, rng.randint(0, min(2, len(fn)))) if rng.random() < 0.5 else []
     ctx.count(f'files:{nfiles}')
     ctx.count('rows:' + ('big' if big else 'small'))
-    return {'level': 1, 'files': files, 'keep': keep, 'conv': conv, 'exc': exc, 'badmode': rng.random() < 0.1}
+    return {'level': 1, 'files': files, 'keep': keep, 'conv': conv, 'exc': exc, 'badmode': rng.random() < 0.2}
 
 
 def gen_ren(rng, ctx, fnames, required, tag):
@@ -1107,8 +1324,12 @@ def gen_l2(rng, ctx, big=None):
     ne = rng.choice([1, 1, 2, 3, 4])
     nm = rng.choice([1, 1, 2])
     sizes = [big] if big else []
-    exp = gen_files(rng, ctx, esch, ne, sizes + [rng.choice(SIZES_SMALL) for _ in range(ne)]) if has_exp else []
-    mc = gen_files(rng, ctx, msch, nm, [rng.choice(SIZES_SMALL) for _ in range(nm)]) if has_mc else []
+    conv = gen_conv(rng)
+    bigvals = all(b != 2 for a, b in conv) and rng.random() < 0.5
+    if bigvals:
+        ctx.count('cells:not-float32-representable')
+    exp = gen_files(rng, ctx, esch, ne, sizes + [rng.choice(SIZES_SMALL) for _ in range(ne)], big=bigvals) if has_exp else []
+    mc = gen_files(rng, ctx, msch, nm, [rng.choice(SIZES_SMALL) for _ in range(nm)], big=bigvals) if has_mc else []
     # stage tables: mostly satisfiable (required fields exist in the files), sometimes not
     cfg, dsf = [], []
     for n in rng.sample(en, rng.randint(0, len(en))):
@@ -1158,7 +1379,7 @@ def gen_l2(rng, ctx, big=None):
     exc = None if rng.random() < 0.5 else rng.sample(pool, rng.randint(0, 2))
     lt = None if rng.random() < 0.06 else rng.randint(1, 400)
     return {'level': 2, 'cfg': cfg, 'dsf': dsf, 'exp': exp, 'mc': mc, 'exp_ren': exp_ren, 'mc_ren': mc_ren,
-            'livetime': lt, 'keep': keep, 'conv': gen_conv(rng), 'exc': exc, 'prep': prep,
+            'livetime': lt, 'keep': keep, 'conv': conv, 'exc': exc, 'exc_str': rng.random() < 0.5, 'prep': prep,
             'try_pkl': rng.random() < 0.1}
 
 
@@ -1180,6 +1401,15 @@ def corpus_cases():
     for (cb, db) in ((8, 2), (2, 8), (8, 0), (0, 8)):
         for nm in (6, 9):
             both.append(dict(base, cfg=[[0, 4], [nm, cb]], dsf=[[nm, db]], exp=[fe], mc=[fm], try_pkl=False))
+    # dtc_except_fields names the NEW name of a renamed field (must be translated back), as list and as str,
+    # exp and mc (fix f87be46: a str was translated character by character)
+    fr = {'sch': [[2, 3], [1, 3]], 'rows': [[2 ** 24 + 1, 5], [7, 6]]}
+    for exc_str in (False, True):
+        both.append(dict(base, cfg=[[4, 4], [1, 4]], dsf=[], exp=[fr], mc=[], exp_ren=[[2, 4]], conv=[[3, 1]], exc=[4],
+                         exc_str=exc_str, try_pkl=False))
+        both.append(dict(base, cfg=[[4, 4], [1, 4]], dsf=[], exp=[fr], mc=[fr], exp_ren=[[2, 4]], mc_ren=[[2, 4]], conv=[[3, 1]],
+                         exc=[4], exc_str=exc_str, try_pkl=False))
+        both.append(dict(base, cfg=[[2, 4], [1, 4]], dsf=[], exp=[fr], mc=[], conv=[[3, 0]], exc=[2], exc_str=exc_str, try_pkl=False))
     return both + [
         # dataset-level analysis field must survive tidy_up (fix 5fbad79)
         dict(base, cfg=[[0, 4]], dsf=[[8, 4]], exp=[f]),
@@ -1237,9 +1467,12 @@ def run(ctx):
     if not HAVE_PQ:
         ctx.notes.append('pyarrow is not importable: parquet format skipped')
     cases = corpus_cases()
-    bigs = SIZES_BIG if ctx.thorough() else [4097, 5000]
+    bigs = SIZES_BIG if ctx.thorough() else [4095, 4096, 4097, 5000]
     for b in bigs:
         cases.append(gen_l1(rng, ctx, big=b))
+    for _ in range(ctx.budget(3, 12)):
+        cases.append(gen_l1(rng, ctx, wide=True))
+        cases.append(gen_l1(rng, ctx, many=True))
     for b in (bigs if ctx.thorough() else [4097]):
         cases.append(gen_l2(rng, ctx, big=b))
     n1 = ctx.budget(90, 500)
@@ -1252,6 +1485,7 @@ def run(ctx):
     ctx.sample({'level-2 example': cases[-1]})
     run_cases(ctx, cases, 'c17')
     run_history(ctx, cases, random_for_history(ctx))
+    run_i3(ctx, random_for_history(ctx))
 
 
 def random_for_history(ctx):
@@ -1261,6 +1495,8 @@ def random_for_history(ctx):
 
 def replay(ctx, rp):
     c = rp.get('case') or {}
+    if c.get('level') == 3:
+        return run_i3(ctx, random_for_history(ctx))
     if c.get('history'):
         rng = random_for_history(ctx)
         if c['level'] == 1:
